@@ -35,6 +35,8 @@ structure Ops where
   zero : Bool := false   -- OPS_FLAG_ZERO_PAD
   prec : Bool := false   -- OPS_PREC_IS_GIVEN
   upper : Bool := false  -- OPS_SPEC_UPPER_CASE
+  ptr : Bool := false    -- OPS_SPEC_POINTER
+  chr : Bool := false    -- OPS_SPEC_CHAR
   len : Len := .none     -- OPS_LEN_*
   deriving DecidableEq, Repr
 
@@ -100,8 +102,10 @@ def strnlen : List Char → Nat → Option Nat
 
 /-- `print_s(handler, data, str, width, max_len, ops)`; result: emitted characters and `pc` -/
 def printS (mem : List Char) (width maxLen : Int) (ops : Ops) : Option (List Char × Int) :=
-  -- len = ops & OPS_PREC_IS_GIVEN ? (int)strnlen(str, max_len) : (int)strlen(str);
-  match (if ops.prec then strnlen mem maxLen.toNat else strlen mem) with
+  -- len = ops & OPS_SPEC_CHAR ? 1 : ops & OPS_PREC_IS_GIVEN ? (int)strnlen(str, max_len) : (int)strlen(str);
+  -- (with OPS_SPEC_CHAR nothing is measured; the emission loop below reads `str[0]`)
+  match (if ops.chr then (if 1 ≤ mem.length then some 1 else none)
+         else if ops.prec then strnlen mem maxLen.toNat else strlen mem) with
   | none => none
   | some n =>
     let len : Int := n
@@ -149,8 +153,10 @@ def printI (u : BitVec 64) (isSigned : Bool) (width minLen : Int) (ops : Ops) (b
     if neg then ['-']
     else if isSigned && ops.sign then ['+']
     else if isSigned && ops.space then [' ']
-    else if base = 8 && ops.spec then ['0']
-    else if base = 16 && ops.spec then (if ops.upper then ['0', 'X'] else ['0', 'x'])
+    -- : (base == 8) && (ops & WITH_SPEC) && (u || (!min_len && (ops & PREC_IS_GIVEN))) ? "0"
+    else if base = 8 && ops.spec && (u ≠ 0 || (minLen = 0 && ops.prec)) then ['0']
+    -- : (base == 16) && (ops & WITH_SPEC) && (u || (ops & OPS_SPEC_POINTER)) ? upper ? "0X" : "0x" : ""
+    else if base = 16 && ops.spec && (u ≠ 0 || ops.ptr) then (if ops.upper then ['0', 'X'] else ['0', 'x'])
     else []
   let prefixLen : Int := pfx.length
   -- letter_base = ops & OPS_SPEC_UPPER_CASE ? 'A' : 'a';
@@ -306,10 +312,10 @@ def convert (begin s : List Char) (args : List Arg) (width precision : Int) (ops
   else if c = 'f' || c = 'F' || c = 'e' || c = 'E' || c = 'g' || c = 'G' || c = 'a' || c = 'A' || c = 'n' then
     .unsupported
   else if c = 'c' then
-    -- tmp.ca[0] = (char)va_arg(args, int); tmp.ca[1] = '\0';
+    -- tmp.ca[0] = (char)va_arg(args, int); tmp.ca[1] = '\0'; print_s(…, &tmp.ca[0], width, precision, ops | OPS_SPEC_CHAR)
     match vaInt args with
     | none => .badarg
-    | some (v, args) => fin (printS [Char.ofNat (v.toNat % 256), NUL] width precision ops) args
+    | some (v, args) => fin (printS [Char.ofNat (v.toNat % 256), NUL] width precision { ops with chr := true }) args
   else if c = 's' then
     -- tmp.cp = va_arg(args, char *); print_s(…, tmp.cp ? tmp.cp : PRINT_S_NULL_STR, …)
     match args with
@@ -317,9 +323,9 @@ def convert (begin s : List Char) (args : List Arg) (width precision : Int) (ops
     | .null :: args => fin (printS PRINT_S_NULL_STR width precision ops) args
     | _ => .badarg
   else if c = 'p' then
-    -- print_i(…, (size_t)tmp.vp, 0, width, sizeof tmp.vp * 2, ops | (WITH_SPEC | PREC_IS_GIVEN), 16)
+    -- print_i(…, (size_t)tmp.vp, 0, width, sizeof tmp.vp * 2, ops | (WITH_SPEC | PREC_IS_GIVEN | OPS_SPEC_POINTER), 16)
     match args with
-    | .ptr v :: args => fin (printI v false width 16 { ops with spec := true, prec := true } 16) args
+    | .ptr v :: args => fin (printI v false width 16 { ops with spec := true, prec := true, ptr := true } 16) args
     | _ => .badarg
   else
     -- default: if (!c) --format; pc += (int)(format - begin + 1);
@@ -382,7 +388,83 @@ def vfdprintf (limit : Option Nat) (err : Int) (format : List Char) (args : List
     | none => some (out, pc)
   | _ => none
 
+/-- compat/libc/stdio/sprintf.c `sprintf`: `va_start(args, format); ret =
+vsprintf(buf, format, args); va_end(args); return ret;` -/
+def sprintf (format : List Char) (args : List Arg) : Option (List Char × Int) :=
+  vsprintf format args
+
+/-- compat/libc/stdio/fdprintf.c `fdprintf`: `va_start(args, format); ret =
+vfdprintf(fd, format, args); va_end(args); return ret;` -/
+def fdprintf (limit : Option Nat) (err : Int) (format : List Char) (args : List Arg) : Option (List Char × Int) :=
+  vfdprintf limit err format args
+
+/-- `struct sprint_char_handler_data` with the destination as an explicit
+memory: `mem` is the caller's allocation, `cursor` an index into it -/
+structure Cursor where
+  mem : List Char
+  cursor : Nat
+  deriving DecidableEq, Repr
+
+/-- `sprint_printchar`: `*(data->cursor)++ = c;` — a store behind the allocation is `none` -/
+def sprintPut (st : Option Cursor) (c : Char) : Option Cursor :=
+  match st with
+  | none => none
+  | some st =>
+    if st.cursor < st.mem.length then some { mem := st.mem.set st.cursor c, cursor := st.cursor + 1 } else none
+
+/-- `vsprintf(s, format, ap)` on a destination of known extent: `data.cursor =
+s; ret = __printf(sprint_printchar, &data, format, ap); *data.cursor = 0;` -/
+def vsprintfMem (mem : List Char) (format : List Char) (args : List Arg) : Option (List Char × Int) :=
+  match printf format args with
+  | .done out pc =>
+    match out.foldl sprintPut (some { mem := mem, cursor := 0 }) with
+    | none => none
+    | some st => if st.cursor < st.mem.length then some (st.mem.set st.cursor NUL, pc) else none
+  | _ => none
+
+/-- `struct snprint_char_handler_data { char *cursor; size_t room; }` -/
+structure SnData where
+  mem : List Char
+  cursor : Nat
+  room : Nat
+  deriving DecidableEq, Repr
+
+/-- `snprint_printchar`: `if (data->room) { *data->cursor++ = c; --data->room; }` -/
+def snPut (st : Option SnData) (c : Char) : Option SnData :=
+  match st with
+  | none => none
+  | some st =>
+    if st.room ≠ 0 then
+      if st.cursor < st.mem.length then
+        some { mem := st.mem.set st.cursor c, cursor := st.cursor + 1, room := st.room - 1 }
+      else none
+    else some st
+
+/-- `vsnprintf(s, n, format, ap)`: `data.cursor = s; data.room = n ? n - 1 : 0;
+ret = __printf(snprint_printchar, &data, format, ap); if (n) *data.cursor = 0;
+return ret;` — `mem` is the caller's allocation (its extent need not be `n`) -/
+def vsnprintf (mem : List Char) (n : Nat) (format : List Char) (args : List Arg) : Option (List Char × Int) :=
+  match printf format args with
+  | .done out pc =>
+    match out.foldl snPut (some { mem := mem, cursor := 0, room := if n ≠ 0 then n - 1 else 0 }) with
+    | none => none
+    | some st =>
+      if n ≠ 0 then
+        if st.cursor < st.mem.length then some (st.mem.set st.cursor NUL, pc) else none
+      else some (st.mem, pc)
+  | _ => none
+
+/-- `snprintf(buf, maxlen, format, ...)`: `va_start; ret = vsnprintf(buf,
+maxlen, format, args); va_end; return ret;` -/
+def snprintf (mem : List Char) (n : Nat) (format : List Char) (args : List Arg) : Option (List Char × Int) :=
+  vsnprintf mem n format args
+
 /-! ### the code as it was before the `fix:` commits (for the witness theorems) -/
+
+/-- `snprintf` before `fix: snprintf honours its size argument`:
+`(void) maxlen; //TODO … ret = vsprintf(buf, format, args);` -/
+def snprintfOrig (mem : List Char) (_n : Nat) (format : List Char) (args : List Arg) : Option (List Char × Int) :=
+  vsprintfMem mem format args
 
 /-- `char c = *format; while (isdigit(c)) ++format;` — `c` is never re-read -/
 def skipDigitsOrig : Nat → Char → List Char → Option (List Char)
@@ -395,5 +477,18 @@ def negOrig (u : BitVec 64) : BitVec 64 := (-(u.truncate 32)).signExtend 64
 /-- `len = (int)strlen(str); if (ops & OPS_PREC_IS_GIVEN) len = MIN(max_len, len);` -/
 def lenOrig (mem : List Char) (maxLen : Nat) (prec : Bool) : Option Nat :=
   (strlen mem).map fun n => if prec then min maxLen n else n
+
+/-- print_i's prefix for an unsigned conversion before `fix: the # flag with a
+zero value`: `(base == 8) && (ops & WITH_SPEC) ? "0" : (base == 16) && (ops &
+WITH_SPEC) ? … "0x" : ""` — chosen without looking at the value -/
+def pfxOrig (ops : Ops) (base : Nat) : List Char :=
+  if base = 8 && ops.spec then ['0']
+  else if base = 16 && ops.spec then (if ops.upper then ['0', 'X'] else ['0', 'x'])
+  else []
+
+/-- `%c` before `fix: %c of a NUL character`: print_s without OPS_SPEC_CHAR
+measures the two-byte string with strlen -/
+def printCOrig (v : BitVec 32) (width precision : Int) (ops : Ops) : Option (List Char × Int) :=
+  printS [Char.ofNat (v.toNat % 256), NUL] width precision { ops with chr := false }
 
 end Igris.C06
